@@ -13,7 +13,7 @@
 (* texts re-rendered, values kept) is admissible, and only tokens that mention the target differ    *)
 (* between the renderings.  The inputs are written to OUT_FILE for the harness.                     *)
 EXTENDS Rename, Json, IOUtils, SequencesExt, FiniteSetsExt
-CONSTANTS Level, Full, Lanes
+CONSTANTS Level, Full
 
 A1 == "T1.a"  B1 == "T1.b"  K1 == "T1.k"  V1 == "T1.v"  R1 == "T1.r"  F1 == "T1.f"
 K2 == "T2.k"  V2 == "T2.v"  W2 == "T2.w"  Q2 == "T2.q"
@@ -152,12 +152,15 @@ ColSeq == << DataCol(A1, "T1", "a", <<1, 2, 1>>), DataCol(B1, "T1", "b", <<3, 1,
                FCol(F1, "T1", "f", F(c(A1))) >>
             \o FCols("T1", "F", FormulasT1) \o FCols("T2", "G", FormulasT2)
 \* keyed by identity; `ord` = the order in which the harness adds the columns
+\* (TLC re-evaluates a definition at every use: bind the sequence once)
 Doc ==
-  [tables |-> << [id |-> "T1", name |-> "T1", nrows |-> 3], [id |-> "T2", name |-> "T2", nrows |-> 4] >>,
-   cols |-> [id \in {ColSeq[j].id : j \in 1..Len(ColSeq)} |->
-               LET j == CHOOSE j \in 1..Len(ColSeq) : ColSeq[j].id = id
-               IN [tab |-> ColSeq[j].tab, name |-> ColSeq[j].name, type |-> ColSeq[j].type, to |-> ColSeq[j].to,
-                   data |-> ColSeq[j].data, body |-> ColSeq[j].body, cmt |-> ColSeq[j].cmt, ord |-> j]]]
+  LET cs  == ColSeq
+      idx == [j \in 1..Len(cs) |-> cs[j].id]
+  IN [tables |-> << [id |-> "T1", name |-> "T1", nrows |-> 3], [id |-> "T2", name |-> "T2", nrows |-> 4] >>,
+      cols |-> [id \in SeqRange(idx) |->
+                  LET j == CHOOSE j \in 1..Len(idx) : idx[j] = id
+                  IN [tab |-> cs[j].tab, name |-> cs[j].name, type |-> cs[j].type, to |-> cs[j].to,
+                      data |-> cs[j].data, body |-> cs[j].body, cmt |-> cs[j].cmt, ord |-> j]]]
 
 (* ---- targets, paths, requested names ----------------------------------------------------------- *)
 ColTargets == <<A1, B1, K1, V1, R1, F1, "T1.F1", K2, V2, W2, Q2, "T2.G1">>
@@ -172,35 +175,32 @@ DownFrom(s, i) == IF i > Len(s) THEN ""
                   ELSE (IF Char(s, i) \in Uppers THEN DownTable[Char(s, i)] ELSE Char(s, i)) \o DownFrom(s, i + 1)
 Down(s) == DownFrom(s, 1)
 
-OtherCol(e) == IF e = A1 THEN B1 ELSE IF ColOf(Doc, e).tab = "T1" THEN A1 ELSE IF e = W2 THEN V2 ELSE W2
-ColReqs(e) ==
-  LET own == ColOf(Doc, e).name  sib == ColOf(Doc, OtherCol(e)).name IN
+OtherCol(D, e) == IF e = A1 THEN B1 ELSE IF ColOf(D, e).tab = "T1" THEN A1 ELSE IF e = W2 THEN V2 ELSE W2
+ColReqs(D, e) ==
+  LET own == ColOf(D, e).name  sib == ColOf(D, OtherCol(D, e)).name IN
   << <<"fresh", "zz">>, <<"sanitise", "my col!">>, <<"collide", sib>>, <<"keyword", "class">>,
      <<"case", Up(own)>>, <<"sibcase", Up(sib)>>, <<"empty", "">>, <<"digit", "1st">>,
      <<"same", own>>, <<"grow", own \o own>>,
-     <<"othertab", IF ColOf(Doc, e).tab = "T1" THEN "w" ELSE "b">>, <<"id", "id">> >>
-TabReqs(e) ==
-  LET own == TabOf(Doc, e).name  sib == IF e = "T1" THEN "T2" ELSE "T1" IN
+     <<"othertab", IF ColOf(D, e).tab = "T1" THEN "w" ELSE "b">>, <<"id", "id">> >>
+TabReqs(D, e) ==
+  LET own == TabOf(D, e).name  sib == IF e = "T1" THEN "T2" ELSE "T1" IN
   << <<"fresh", "Zz">>, <<"capitalise", "zz">>, <<"sanitise", "my tab!">>, <<"collide", sib>>,
      <<"keyword", "none">>, <<"case", Down(own)>>, <<"sibcase", Down(sib)>>, <<"empty", "">>,
      <<"digit", "2x">>, <<"same", own>>, <<"grow", own \o own>>, <<"colname", "v">> >>
 
 Mk(e, p, r) == [doc |-> 1, target |-> e, path |-> p, cls |-> r[1], req |-> r[2]]
-InputsOf(targets, paths, Reqs(_)) ==
+InputsOf(D, targets, paths, Reqs(_, _)) ==
   Flat([t \in 1..Len(targets) |-> Flat([p \in 1..Len(paths) |->
-     LET rs == Reqs(targets[t])
+     LET rs == Reqs(D, targets[t])
          keep(r) == Full \/ r = 1 \/ p = 1 \/ ((t + p + r) % 5 = 0)
      IN SelectSeq([r \in 1..Len(rs) |-> <<r, Mk(targets[t], paths[p], rs[r])>>],
                   LAMBDA x : keep(x[1]))])])
-InputSeq == Map1(InputsOf(ColTargets, ColPathSeq, ColReqs) \o InputsOf(TabTargets, TabPathSeq, TabReqs),
-                 LAMBDA x : x[2])
-N == Len(InputSeq)
-
-ASSUME "OUT_FILE" \in DOMAIN IOEnv => JsonSerialize(IOEnv.OUT_FILE, [docs |-> <<Doc>>, inputs |-> InputSeq])
+InputsFor(D) == Map1(InputsOf(D, ColTargets, ColPathSeq, ColReqs) \o InputsOf(D, TabTargets, TabPathSeq, TabReqs),
+                     LAMBDA x : x[2])
 
 (* ---- reference outcome ------------------------------------------------------------------------- *)
 Hidden == [e \in {"T1.manualSort", "T2.manualSort"} |-> "manualSort"]
-InOf(x) == [sch |-> Doc, target |-> x.target, path |-> x.path, req |-> x.req]
+InOf(D, x) == [sch |-> D, target |-> x.target, path |-> x.path, req |-> x.req]
 Ref(in) ==
   LET N0   == Names0(in.sch) @@ Hidden
       kind == KindOf(in)
@@ -209,23 +209,25 @@ Ref(in) ==
       N1   == [N0 EXCEPT ![in.target] = new]
       texts(Nm) == [e \in DOMAIN N0 \ TableIds(in.sch) |->
                       IF e \in ColIds(in.sch) THEN FormulaText(Nm, ColOf(in.sch, e)) ELSE ""]
+      t0   == texts(N0)
       vals == [e \in DOMAIN N0 \ TableIds(in.sch) |-> <<"#0">>]
   IN [fail |-> "", exc |-> "", names0 |-> N0, names1 |-> N1, names2 |-> N0,
-      texts0 |-> texts(N0), texts1 |-> texts(N1), texts2 |-> texts(N0),
+      texts0 |-> t0, texts1 |-> texts(N1), texts2 |-> t0,
       vals0 |-> vals, vals1 |-> vals, vals2 |-> vals, dig0 |-> 0, dig1 |-> 1, cons1 |-> TRUE, undo_exc |-> ""]
 
-\* every target that a formula can mention is mentioned, in every reference form the property names
-ASSUME SchOk(Doc)
-ASSUME \A e \in {A1, B1, K1, V1, R1, F1, K2, V2, W2, Q2, "T1", "T2"} :
-         \E id \in ColIds(Doc) : e \in Mentions(Doc.cols[id])
+\* the document is in the family; every target that a formula can mention is mentioned
+ASSUME LET D == Doc IN
+       /\ SchOk(D)
+       /\ \A e \in {A1, B1, K1, V1, R1, F1, K2, V2, W2, Q2, "T1", "T2"} :
+             \E id \in ColIds(D) : e \in Mentions(D, D.cols[id])
+       /\ "OUT_FILE" \in DOMAIN IOEnv => JsonSerialize(IOEnv.OUT_FILE, [docs |-> <<D>>, inputs |-> InputsFor(D)])
 
-VARIABLE i
-Init == i \in 1..(IF N < Lanes THEN N ELSE Lanes)
-Next == i + Lanes <= N /\ i' = i + Lanes
+VARIABLE input
+Init == LET D == Doc  xs == InputsFor(D) IN input \in {InOf(D, xs[j]) : j \in 1..Len(xs)}
+Next == UNCHANGED input
 SpecSane ==
-  LET in == InOf(InputSeq[i])
-      o  == Ref(in)
-  IN /\ StepOk(in)
-     /\ Ok(in, o)
-     /\ OnlyMentionsChange(in.sch, o.names0, o.names1, {in.target})
+  LET o == Ref(input)
+  IN /\ StepOk(input)
+     /\ Ok(input, o)
+     /\ OnlyMentionsChange(input.sch, o.names0, o.names1, {input.target})
 =============================================================================
